@@ -225,6 +225,13 @@ def import_hiten():
     WORK.mkdir(parents=True, exist_ok=True)
     os.chdir(WORK)
     import hiten  # noqa
+    try:
+        # hiten launches many tiny parallel kernels; with 16 OpenMP threads the wake-ups dominate (C09: 204 s -> 32 s with 2).
+        # Checks that sweep thread counts (C06, C14) set the count explicitly, up to numba.config.NUMBA_NUM_THREADS.
+        import numba
+        numba.set_num_threads(min(2, numba.config.NUMBA_NUM_THREADS))
+    except Exception:
+        pass
     root = logging.getLogger()
     root.setLevel(logging.CRITICAL)
     for h in list(root.handlers):
